@@ -86,6 +86,11 @@ type c12Ev struct {
 }
 
 type c12Scn struct {
+	// Variant names the ordering found in the tree under test (go/ast walk):
+	// "fixed" = adoption loop, then LatestRevision (fixes/D4.diff), "unfixed" =
+	// LatestRevision before the single loop (defect D4). The model runs the
+	// matching mirror; its theorems hold for "fixed" only.
+	Variant  string        `json:"variant"`
 	Comps    []c12CompInit `json:"comps"`
 	Contents []c12Content  `json:"contents"`
 	XRs      []c12XRInit   `json:"xrs"`
@@ -173,7 +178,25 @@ func c12SpecKey(i int) string {
 }
 
 // c12Prepare (re)computes the oracle table with the code of the current tree.
+var c12VariantCache string
+
+func c12Variant() string {
+	if c12VariantCache == "" {
+		c12VariantCache = "fixed"
+		for _, t := range c12Skeleton() {
+			if t == "loop{" {
+				break
+			}
+			if t == "LatestRevision" {
+				c12VariantCache = "unfixed"
+			}
+		}
+	}
+	return c12VariantCache
+}
+
 func c12Prepare(s *c12Scn) {
+	s.Variant = c12Variant()
 	names := map[string]bool{}
 	for _, c := range s.Comps {
 		names[c.Name] = true
@@ -726,6 +749,26 @@ func c12Gen(r *Rng) c12Scn {
 	}
 	nextUID := 10
 	sels := []map[string]string{{}, {"channel": "dev"}, {"channel": "staging"}, {"channel": "prod"}, {"tier": "gold"}}
+	genSetXR := func() c12Ev {
+		e := c12Ev{Op: "setxr", XR: Pick(r, s.XRs).Name, Policy: Pick(r, []string{"", "Manual", "Manual", "Automatic", "Automatic"})}
+		if r.Chance(1, 2) {
+			m := Pick(r, sels)
+			if r.Chance(1, 8) {
+				m = map[string]string{v1.LabelCompositionHash: Pick(r, s.Tab).Hash}
+			}
+			e.Sel = &m
+		}
+		switch r.Intn(4) {
+		case 0:
+			e.Pin = "-"
+		case 1:
+			e.Pin = Pick(r, s.Tab).Name
+		}
+		return e
+	}
+	if r.Chance(2, 3) {
+		s.Events = append(s.Events, genSetXR())
+	}
 	n := r.Range(5, 16)
 	for i := 0; i < n; i++ {
 		comp := Pick(r, compNames)
@@ -759,20 +802,7 @@ func c12Gen(r *Rng) c12Scn {
 		case x < 75:
 			s.Events = append(s.Events, c12Ev{Op: "deleting", Comp: comp})
 		case x < 84:
-			e := c12Ev{Op: "setxr", XR: Pick(r, s.XRs).Name, Policy: Pick(r, []string{"", "Manual", "Automatic", "Automatic"})}
-			if r.Chance(1, 2) {
-				m := Pick(r, sels)
-				if r.Chance(1, 8) {
-					m = map[string]string{v1.LabelCompositionHash: Pick(r, s.Tab).Hash}
-				}
-				e.Sel = &m
-			}
-			switch r.Intn(4) {
-			case 0:
-				e.Pin = "-"
-			case 1:
-				e.Pin = Pick(r, s.Tab).Name
-			}
+			e := genSetXR()
 			s.Events = append(s.Events, e)
 		default:
 			s.Events = append(s.Events, c12Ev{Op: "fetch", XR: Pick(r, s.XRs).Name, Plan: c12GenPlan(r, 6)})
@@ -781,45 +811,68 @@ func c12Gen(r *Rng) c12Scn {
 	return s
 }
 
+func c12ContentKind(a, b c12Content) string {
+	sameL := c12LabelsEq(a.Labels, b.Labels)
+	switch {
+	case a.Spec == b.Spec && a.Annos == b.Annos && !sameL:
+		return "labelonly"
+	case a.Spec == b.Spec && a.Annos != b.Annos && sameL:
+		return "annoonly"
+	}
+	return ""
+}
+
+// c12Class: size and the branches of the quantifier a history exercises.
 func c12Class(s *c12Scn, obs c12Obs) string {
 	has := map[string]bool{}
-	faults := map[string]bool{}
 	aba := false
-	lastCI := map[string][]int{}
+	hist := map[string][]int{}
+	cur := map[string]int{}
+	for _, c := range s.Comps {
+		cur[c.Name] = c.CI
+	}
+	xrpol := map[string]string{}
 	for i, e := range s.Events {
 		has[e.Op] = true
-		for _, f := range e.Plan {
-			faults[f.O] = true
+		if len(e.Plan) > 0 {
+			has["faults"] = true
 		}
-		if e.Op == "setxr" && e.Policy != "" {
-			has["pol="+e.Policy] = true
-		}
-		if e.Op == "setxr" && e.Sel != nil {
-			has["sel"] = true
-		}
-		if e.Op == "rec" && i < len(obs.Steps) && (obs.Steps[i].Res == "ok" || obs.Steps[i].Res == "created") {
-			// A-B-A: a successful reconcile at a content seen before a different one
-			h := lastCI[e.Comp]
-			ci := -1
-			for _, c := range s.Comps {
-				if c.Name == e.Comp {
-					ci = c.CI
+		switch e.Op {
+		case "edit":
+			if old, ok := cur[e.Comp]; ok && e.CI >= 0 && e.CI < len(s.Contents) {
+				if k := c12ContentKind(s.Contents[old], s.Contents[e.CI]); k != "" {
+					has[k] = true
 				}
+				cur[e.Comp] = e.CI
 			}
-			for _, p := range s.Events[:i] {
-				if p.Op == "edit" && p.Comp == e.Comp {
-					ci = p.CI
-				}
+		case "setxr":
+			p := "unset"
+			if e.Policy != "" {
+				p = e.Policy
 			}
-			if len(h) > 0 && h[len(h)-1] != ci {
-				for _, q := range h[:len(h)-1] {
-					if q == ci {
-						aba = true
+			if e.Sel != nil && e.Policy == "Automatic" {
+				p += "+sel"
+			}
+			xrpol[e.XR] = p
+		case "fetch":
+			p := xrpol[e.XR]
+			if p == "" {
+				p = "unset"
+			}
+			has["fetch:"+p] = true
+		case "rec":
+			if i < len(obs.Steps) && (obs.Steps[i].Res == "ok" || obs.Steps[i].Res == "created") {
+				ci, h := cur[e.Comp], hist[e.Comp]
+				if len(h) > 0 && h[len(h)-1] != ci {
+					for _, q := range h[:len(h)-1] {
+						if q == ci {
+							aba = true
+						}
 					}
 				}
-			}
-			if len(h) == 0 || h[len(h)-1] != ci {
-				lastCI[e.Comp] = append(h, ci)
+				if len(h) == 0 || h[len(h)-1] != ci {
+					hist[e.Comp] = append(h, ci)
+				}
 			}
 		}
 	}
@@ -832,31 +885,31 @@ func c12Class(s *c12Scn, obs c12Obs) string {
 	if maxRevs == 0 {
 		return "trivial/no-revision"
 	}
-	parts := []string{fmt.Sprintf("revs=%d", maxRevs)}
+	size := fmt.Sprintf("revs=%d", maxRevs)
+	if maxRevs >= 4 {
+		size = "revs>=4"
+	}
+	parts := []string{size}
 	if aba {
 		parts = append(parts, "aba")
+	}
+	for _, k := range []string{"labelonly", "annoonly"} {
+		if has[k] {
+			parts = append(parts, k)
+			break
+		}
 	}
 	if has["strip"] || has["restore"] {
 		parts = append(parts, "stripped")
 	}
-	if has["foreign"] {
-		parts = append(parts, "foreign")
+	if has["faults"] {
+		parts = append(parts, "faults")
 	}
-	if has["fetch"] {
-		parts = append(parts, "fetch")
-	}
-	for _, p := range []string{"pol=Manual", "pol=Automatic", "sel"} {
-		if has[p] {
-			parts = append(parts, p)
+	for _, k := range []string{"fetch:Manual", "fetch:Automatic+sel", "fetch:Automatic", "fetch:unset"} {
+		if has[k] {
+			parts = append(parts, k)
+			break
 		}
-	}
-	var fs []string
-	for f := range faults {
-		fs = append(fs, f)
-	}
-	sort.Strings(fs)
-	if len(fs) > 0 {
-		parts = append(parts, "faults="+strings.Join(fs, "+"))
 	}
 	return strings.Join(parts, "/")
 }
@@ -864,7 +917,9 @@ func c12Class(s *c12Scn, obs c12Obs) string {
 func c12Emit(c *Ctx, s *c12Scn, tag string) []int {
 	obs, mons, calls := c12Run(s)
 	cls := c12Class(s, obs)
-	if tag != "" {
+	if strings.HasPrefix(tag, "sweep") {
+		cls = tag // the fault position x outcome is the class of a sweep member
+	} else if tag != "" {
 		cls = tag + "/" + cls
 	}
 	c.Emit(s, obs, mons, cls)
@@ -911,7 +966,7 @@ func init() {
 					v := s
 					v.Events = append([]c12Ev{}, s.Events...)
 					v.Events[idx[j]].Plan = []c12Fault{{K: k, O: o}}
-					c12Emit(c, &v, "sweep")
+					c12Emit(c, &v, fmt.Sprintf("sweep/%s/k=%d/%s", s.Events[idx[j]].Op, k, o))
 					budget--
 				}
 			}
